@@ -130,6 +130,26 @@ Theorem C09_peer_padded_example :
 Proof. exact raw_padded_example. Qed.
 Print Assumptions C09_peer_padded_example.
 
+(* LB pick metadata (PickResult.Metadata = p, non-nil): when the application's metadata and p
+   are valid, the RPC is exactly the RPC whose outgoing metadata is
+   Join(FromOutgoingContext(ctx), p) - C28's reference multimap of the base MD and all
+   appended pairs, then p's values per key - with the :authority override taken from p; so by
+   C09_faithful the handler sees base values, appended values, pick values per key in that
+   order.  (Validity of the merged map is a hypothesis here, checked per case, not derived.)
+   Invalid application or pick metadata: INTERNAL before anything is sent. *)
+Theorem C09_pick_metadata_merged : forall auth mode md calls h t p,
+  NoDup (map lower (keys md)) -> valid_user md calls = true -> validate_md p = true ->
+  valid_user (pick_merged md calls p) [] = true ->
+  rpc_pick auth mode md calls h t p = rpc (pick_auth auth p) mode (join [spec_md md calls; p]) [] h t.
+Proof. exact rpc_pick_merged. Qed.
+Print Assumptions C09_pick_metadata_merged.
+
+Theorem C09_pick_metadata_invalid : forall auth mode md calls h t p,
+  valid_user md calls && validate_md p = false ->
+  rpc_pick auth mode md calls h t p = [13; 0; 0; 0] ++ dump [] ++ dump [] ++ dump [].
+Proof. exact rpc_pick_invalid. Qed.
+Print Assumptions C09_pick_metadata_invalid.
+
 (* The executable predicate evaluated on implementation traces holds on every model trace *)
 Theorem C09_holds_on_every_model_trace : forall cfg ops,
   (exists a, get_auth cfg = Some a) -> forallb op_wf ops = true ->
